@@ -195,6 +195,7 @@ class _Stmts:
         self.consts = consts or {}
         self.local_tables = {}
         self.adjacent = None
+        self.sentinels = set()
 
     def unroll(self, st):
         """the copies of the body of a table-driven loop, or None"""
@@ -231,7 +232,59 @@ class _Stmts:
         self.count += 1
         return out
 
+    def sentinel_get(self, body):
+        """``x = m.get(k, SENTINEL)`` followed by ``if x is [not] SENTINEL:`` -- the single look-up form of
+        ``if k in m: x = m[k]`` (SENTINEL a module-level ``object()``) -- is rewritten into the membership form."""
+        out = []
+        i = 0
+        while i < len(body):
+            st = body[i]
+            nxt = body[i + 1] if i + 1 < len(body) else None
+            done = False
+            if isinstance(st, (ast.Assign, ast.AnnAssign)) and isinstance(getattr(st, "value", None), ast.Call) and isinstance(nxt, ast.If):
+                tg = st.targets[0] if isinstance(st, ast.Assign) and len(st.targets) == 1 else (st.target if isinstance(st, ast.AnnAssign) else None)
+                call = st.value
+                t = nxt.test
+                if (
+                    isinstance(tg, ast.Name)
+                    and isinstance(call.func, ast.Attribute)
+                    and call.func.attr == "get"
+                    and len(call.args) == 2
+                    and not call.keywords
+                    and isinstance(call.args[1], ast.Name)
+                    and call.args[1].id in self.sentinels
+                    and _call_free(call.func.value)
+                    and _call_free(call.args[0])
+                    and isinstance(t, ast.Compare)
+                    and len(t.ops) == 1
+                    and isinstance(t.ops[0], (ast.Is, ast.IsNot))
+                    and isinstance(t.left, ast.Name)
+                    and t.left.id == tg.id
+                    and isinstance(t.comparators[0], ast.Name)
+                    and t.comparators[0].id == call.args[1].id
+                ):
+                    m_, k_, s_ = call.func.value, call.args[0], call.args[1]
+                    found = [ast.Assign(targets=[ast.Name(id=tg.id, ctx=ast.Store())], value=ast.Subscript(value=copy.deepcopy(m_), slice=copy.deepcopy(k_), ctx=ast.Load()))]
+                    missing = [ast.Assign(targets=[ast.Name(id=tg.id, ctx=ast.Store())], value=ast.Name(id=s_.id, ctx=ast.Load()))]
+                    test = ast.Compare(left=copy.deepcopy(k_), ops=[ast.In()], comparators=[copy.deepcopy(m_)])
+                    if isinstance(t.ops[0], ast.IsNot):
+                        new = ast.If(test=test, body=found + nxt.body, orelse=missing + nxt.orelse)
+                    else:
+                        new = ast.If(test=test, body=found + nxt.orelse, orelse=missing + nxt.body)
+                    # the name is still bound to the sentinel on the "missing" arm; uses of it there keep their meaning
+                    ast.copy_location(new, st)
+                    ast.fix_missing_locations(new)
+                    out.append(new)
+                    self.count += 1
+                    i += 2
+                    done = True
+            if not done:
+                out.append(st)
+                i += 1
+        return out
+
     def block(self, body):
+        body = self.sentinel_get(body) if self.sentinels else body
         out = []
         prev = None
         for st in body:
@@ -312,6 +365,12 @@ def apply(tree):
     ex = _Exprs(consts)
     ex.visit(tree)
     sm = _Stmts(consts)
+    # module-level sentinels: ``NAME = object()`` bound once
+    for st_ in tree.body:
+        if isinstance(st_, ast.Assign) and len(st_.targets) == 1 and isinstance(st_.targets[0], ast.Name) and isinstance(st_.value, ast.Call) and isinstance(st_.value.func, ast.Name) and st_.value.func.id == "object" and not st_.value.args and not st_.value.keywords:
+            n_bind = sum(1 for x in ast.walk(tree) if isinstance(x, ast.Name) and x.id == st_.targets[0].id and isinstance(x.ctx, (ast.Store, ast.Del)))
+            if n_bind == 1:
+                sm.sentinels.add(st_.targets[0].id)
 
     def top(body):
         # module and class level statements stay as they are (constants, version guards); function bodies are rewritten
